@@ -324,6 +324,15 @@ class _Parser:
 
     def primary(self, ns):
         tok = self.peek()
+        if tok.text == "|":
+            # closure `|x| EXPR` (argument of `.any` / `.all` / `.find`)
+            self.eat("|")
+            if self.at("&"):
+                self.eat("&")
+            var = self.ident()
+            self.eat("|")
+            body = self.expr()
+            return ("closure", var, body, tok.line)
         if tok.text == "(":
             self.eat("(")
             e = self.expr()
@@ -401,7 +410,18 @@ def _trace_shapes():
     return shapes
 
 
-_TRACE_SHAPES = _trace_shapes()
+def _trace_norm(text):
+    """a unit-trace block modulo borrow-vs-clone spelling: `&`, `mut`, `.clone()`, `.as_str()`, `.as_ref()`,
+    `.as_deref()`, `.as_deref_mut()`, `.to_string()`, `.to_owned()` do not matter for a block that only touches the trace"""
+    t = _norm(text)
+    for m in ["clone", "as_str", "as_ref", "as_deref_mut", "as_deref", "to_string", "to_owned"]:
+        t = t.replace(f". {m} ( )", "")
+    t = re.sub(r"(?<![&])&(?![&])", " ", t)
+    t = re.sub(r"\bmut\b", " ", t)
+    return _norm(t)
+
+
+_TRACE_SHAPES = {_trace_norm(x) for x in _trace_shapes()}
 
 
 class _Tr:
@@ -413,8 +433,54 @@ class _Tr:
         self.aux = []                  # auxiliary (loop) definitions, in order of appearance
         self.loop_count = 0
         self.scope = {}                # rust variable -> lean name
+        self.vtypes = {}               # rust variable (locals, mutable arguments) -> Lean type
+        self.decl = []                 # declaration order of the locals
+        self.counters = {}
+        self.header_vars = set()       # variables bound to a header (loop / closure variables over a header list)
+        self.int_vars = set()          # variables that are decremented somewhere: signed
         for rust, lean in cfg.get("args", {}).items():
             self.scope[rust] = lean
+        for rust, ty in cfg.get("mutable_args", {}).items():
+            self.vtypes[rust] = ty
+        for rust, ty in cfg.get("arg_rust_types", {}).items():
+            self.vtypes.setdefault(rust, ty)
+        toks = parser.t
+        for i in range(len(toks) - 1):
+            if toks[i].kind == "id" and toks[i + 1].text == "-=":
+                self.int_vars.add(toks[i].text)
+
+    _PREFIX = {"Bool": "b", "Nat": "n", "Int": "z", "List Char": "cs", "List Nat": "bytes", "Char": "c",
+               "List (String × String)": "hs", "String × String": "h"}
+
+    def fresh(self, ty):
+        """canonical Lean name of a new local: the names of the source are free (alpha-renaming changes nothing)"""
+        pre = self._PREFIX.get(ty, "v")
+        self.counters[pre] = self.counters.get(pre, 0) + 1
+        return f"{pre}{self.counters[pre]}"
+
+    def infer(self, e, name=None):
+        k = e[0]
+        if k == "pathcall" and e[1] == "Vec::new":
+            if "vec_type" not in self.cfg:
+                self.fail("`Vec::new()` without a known element type in this function", e[2])
+            return self.cfg["vec_type"]
+        if k == "bool":
+            return "Bool"
+        if k == "int":
+            return "Int" if name in self.int_vars else "Nat"
+        if k == "var" and e[1] in self.header_vars:
+            return "String × String"
+        if k == "var" and e[1] in self.vtypes:
+            return self.vtypes[e[1]]
+        if k == "call" and e[2] == "clone":
+            return self.infer(e[1], name)
+        if k == "field" and e[1][0] == "var" and e[1][1] == "self" and e[2] in self.cfg.get("self_field_types", {}):
+            return self.cfg["self_field_types"][e[2]]
+        if k == "call" and e[2] in ("any", "all", "is_some", "is_none"):
+            return "Bool"
+        if k in ("not", "bin"):
+            return "Bool"
+        self.fail("cannot infer the type of this initialiser", e[-1] if isinstance(e[-1], int) else 0)
 
     def fail(self, msg, line):
         text = self.p.lines.get(line, "").strip()
@@ -435,7 +501,7 @@ class _Tr:
                 if name not in self.cfg["self_fields"]:
                     self.fail(f"`self.{name}` is not a modelled field", line)
                 return self.cfg["self_fields"][name]
-            if base[0] == "var" and base[1] in self.cfg.get("header_vars", set()) and base[1] in self.scope:
+            if base[0] == "var" and base[1] in self.header_vars and base[1] in self.scope:
                 if name == "name":
                     return self.scope[base[1]] + ".1"
                 if name == "value":
@@ -447,6 +513,27 @@ class _Tr:
                 return self.expr(base)
             if name == "to_lowercase" and not args:
                 return f"lower {self.atom(base)}"
+            if name in ("iter", "into_iter") and not args:
+                return self.expr(base)
+            if name in ("any", "all", "find") and len(args) == 1 and args[0][0] == "closure":
+                _, var, body, cl = args[0]
+                lst = base
+                while lst[0] == "call" and lst[2] in ("iter", "into_iter", "clone"):
+                    lst = lst[1]
+                if lst[0] == "ref":
+                    lst = lst[1]
+                if lst[0] != "var" or self.vtypes.get(lst[1]) != "List (String × String)":
+                    self.fail(f"`.{name}(..)` only over a header list", line)
+                saved, saved_h = dict(self.scope), set(self.header_vars)
+                lv = self.fresh("String × String")
+                self.scope[var] = lv
+                self.header_vars.add(var)
+                b = self.expr(body)
+                self.scope, self.header_vars = saved, saved_h
+                fn = {"any": "any", "all": "all", "find": "find?"}[name]
+                return f"{self.scope[lst[1]]}.{fn} (fun {lv} => {b})"
+            if name in ("is_some", "is_none") and not args:
+                return f"{self.atom(base)}.{'isSome' if name == 'is_some' else 'isNone'}"
             self.fail(f"method `.{name}(..)` is not in the subset", line)
         if k == "pathcall":
             if e[1] == "Vec::new":
@@ -483,14 +570,14 @@ class _Tr:
 
     def atom(self, e):
         s = self.expr(e)
-        if re.fullmatch(r"[A-Za-z_][A-Za-z0-9_.]*|\d+|'[^']+'|\[\]|true|false", s):
+        if re.fullmatch(r"[A-Za-z_][A-Za-z0-9_.]*|\d+|'[^']+'|\[\]|true|false", s) and "?" not in s:
             return s
         return f"({s})"
 
     # ---- statements
     def lvalue(self, e):
         """rust name of an assignable: a local mutable variable or a mutable self field"""
-        if e[0] == "var" and e[1] in self.scope and e[1] in self.cfg["var_types"]:
+        if e[0] == "var" and e[1] in self.scope and e[1] in self.vtypes and e[1] not in self.cfg.get("arg_rust_types", {}):
             return e[1]
         if e[0] == "field" and e[1][0] == "var" and e[1][1] == "self" and e[2] in self.cfg.get("self_out", []):
             return "self." + e[2]
@@ -559,7 +646,7 @@ class _Tr:
 
     def order(self, names):
         """tuple order: self fields first (declaration order of cfg), then locals by declaration order"""
-        decl = ["self." + f for f in self.cfg.get("self_out", [])] + self.cfg["var_order"]
+        decl = ["self." + f for f in self.cfg.get("self_out", [])] + list(self.cfg.get("mutable_args", {})) + self.decl
         return [n for n in decl if n in names]
 
     def tuple_of(self, names):
@@ -580,22 +667,29 @@ class _Tr:
         if k == "let":
             _, name, mutable, e, line = st
             val = self.expr(e)
-            if mutable and name not in self.cfg["var_types"]:
-                self.fail(f"mutable variable `{name}` has no declared Lean type in the translator's table", line)
-            self.scope[name] = _camel(name)
-            ty = f" : {self.cfg['var_types'][name]}" if name in self.cfg["var_types"] else ""
-            return [pad + f"let {_camel(name)}{ty} := {val}"] + self.seq(rest, tail, k_end, k_break, ind)
+            ty = self.infer(e, name)
+            lean = self.fresh(ty)
+            self.scope[name] = lean
+            self.vtypes[name] = ty
+            if ty == "String × String":
+                self.header_vars.add(name)
+            if name in self.decl:
+                self.decl.remove(name)
+            self.decl.append(name)
+            return [pad + f"let {lean} : {ty} := {val}"] + self.seq(rest, tail, k_end, k_break, ind)
         if k == "letmacro":
             _, name, mac, args, line = st
             if mac != "next_char_or_return!" or len(args) != 2:
                 self.fail(f"macro `{mac}` is not in the subset", line)
             it = self.lvalue(args[0])
-            if self.cfg["var_types"].get(it) != "List Char":
+            if self.vtypes.get(it) != "List Char":
                 self.fail("`next_char_or_return!` needs a `.chars()` iterator", line)
             ret = self.expr(args[1])
-            self.scope[name] = _camel(name)
+            cv = self.fresh("Char")
+            self.scope[name] = cv
+            self.vtypes[name] = "Char"
             itl = self.lean_of(it)
-            lines = [pad + f"match {itl} with", pad + f"| [] => {ret}", pad + f"| {_camel(name)} :: {itl} =>"]
+            lines = [pad + f"match {itl} with", pad + f"| [] => {ret}", pad + f"| {cv} :: {itl} =>"]
             return lines + self.seq(rest, tail, k_end, k_break, ind + 1)
         if k == "assign":
             _, lhs, op, rhs, line = st
@@ -620,7 +714,7 @@ class _Tr:
             self.fail("expression statement not in the subset", line)
         if k == "iflet":
             _, text, line = st
-            if _norm(text) not in _TRACE_SHAPES:
+            if _trace_norm(text) not in _TRACE_SHAPES:
                 self.fail("`if let` block is not one of the known unit-trace side-effect shapes", line)
             return self.seq(rest, tail, k_end, k_break, ind)
         if k == "break":
@@ -691,36 +785,37 @@ class _Tr:
     def for_lines(self, st, rest, tail, k_end, k_break, ind):
         _, var, it, body, line = st
         pad = "  " * ind
+        while it[0] == "call" and it[2] in ("iter", "into_iter") and not it[3]:
+            it = it[1]
         if it[0] == "ref":
             it = it[1]
-        if it[0] != "var" or it[1] not in self.cfg.get("list_vars", set()) or it[1] not in self.scope:
-            self.fail("`for` only over a list-typed variable of the function", line)
+        if it[0] != "var" or self.vtypes.get(it[1]) != "List (String × String)" or it[1] not in self.scope:
+            self.fail("`for` only over a header-list variable of the function", line)
         if body[1] is not None:
             self.fail("`for` body with a value", line)
         self.loop_count += 1
         fname = f"{self.cfg['name']}Loop{self.loop_count}"
-        saved = dict(self.scope)
-        self.scope[var] = _camel(var)
+        saved, saved_h = dict(self.scope), set(self.header_vars)
+        ev = self.fresh("String × String")
+        self.scope[var] = ev
+        self.header_vars.add(var)
         state = self.order(set(self.assigned(body)))
         if not state:
             self.fail("`for` loop that assigns nothing", line)
-        for x in state:
-            if x not in self.cfg["var_types"] and not x.startswith("self."):
-                self.fail(f"loop variable `{x}` has no declared type", line)
         tup = self.tuple_of(state)
         leans = [self.lean_of(x) for x in state]
         fixed = " ".join(n for n, _ in self.cfg["params"])
         rec = f"{fname} {fixed} rest " + " ".join(leans)
         body_lines = self.seq(body[0], None, lambda v: rec, lambda: tup, 2)
-        self.scope = saved
-        types = [self.cfg["var_types"][x] for x in state]
+        self.scope, self.header_vars = saved, saved_h
+        types = [self.vtypes[x] for x in state]
         res = types[0] if len(types) == 1 else " × ".join(f"{t}" if " " not in t else f"({t})" for t in types)
         par = " ".join(f"({n} : {t})" for n, t in self.cfg["params"])
-        elem = self.cfg["elem_types"][it[1]]
+        elem = "String × String"
         sig = " → ".join([f"List ({elem})"] + [t if " " not in t else f"({t})" for t in types] + [res])
         aux = ["set_option linter.unusedVariables false in", f"def {fname} {par} :", f"    {sig}",
                "  | [], " + ", ".join(leans) + " => " + tup,
-               f"  | {_camel(var)} :: rest, " + ", ".join(leans) + " =>"] + body_lines
+               f"  | {ev} :: rest, " + ", ".join(leans) + " =>"] + body_lines
         self.aux.append(aux)
         call = f"{fname} {fixed} {self.scope[it[1]]} " + " ".join(leans)
         return [pad + f"let {tup} := {call}"] + self.seq(rest, tail, k_end, k_break, ind)
@@ -732,10 +827,12 @@ class _Tr:
             self.fail("`loop` body with a value", line)
         self.loop_count += 1
         fname = f"{self.cfg['name']}Loop{self.loop_count}"
-        state = self.cfg["var_order"]
-        for x in state:
-            if x not in self.scope:
-                self.fail(f"`loop` before the declaration of `{x}`", line)
+        # all mutable locals, the iterators consumed by `next_char_or_return!` first (recursion goes through them)
+        its = []
+        for st2 in body[0]:
+            if st2[0] == "letmacro" and st2[3] and st2[3][0][0] == "var" and st2[3][0][1] not in its:
+                its.append(st2[3][0][1])
+        state = [x for x in its if x in self.decl] + [x for x in self.decl if x not in its]
         leans = [self.lean_of(x) for x in state]
         fixed = " ".join(n for n, _ in self.cfg["params"])
         rec = (f"{fname} {fixed} " if fixed else f"{fname} ") + " ".join(leans)
@@ -743,7 +840,7 @@ class _Tr:
         body_lines = self.seq(body[0], None, lambda v: rec, None, 1)
         self.scope = saved
         par = " ".join(f"({n} : {t})" for n, t in self.cfg["params"])
-        args = " ".join(f"({l} : {self.cfg['var_types'][x]})" for l, x in zip(leans, state))
+        args = " ".join(f"({l} : {self.vtypes[x]})" for l, x in zip(leans, state))
         aux = ["set_option linter.unusedVariables false in",
                f"def {fname} {par + ' ' if par else ''}{args} : {self.cfg['result_type']} :="] + body_lines
         self.aux.append(aux)
@@ -811,11 +908,8 @@ def _header_cfg(name):
         "args": {"headers": "headers"},
         "arg_types": [("headers", f"List ({_PAIR})")],
         "self_fields": {"name": "name", "value": "value"},
-        "var_types": {"new_headers": f"List ({_PAIR})", "found": "Bool", "headers": f"List ({_PAIR})"},
-        "var_order": ["headers", "new_headers", "found"],
-        "header_vars": {"header"},
-        "list_vars": {"headers"},
-        "elem_types": {"headers": _PAIR},
+        "mutable_args": {"headers": f"List ({_PAIR})"},
+        "vec_type": f"List ({_PAIR})",
         "result_type": f"List ({_PAIR})",
         "return": lambda tr, v: v,
     }
@@ -829,8 +923,8 @@ def _text_cfg(name, with_data):
         "arg_types": [("content", "List Nat"), ("executed", "Bool")] + ([("data", "List Nat")] if with_data else []),
         "self_fields": {"content": "content", "executed": "executed"},
         "self_out": ["executed"],
-        "var_types": {"content": "List Nat"},   # the local `let mut content` of the Prepend arm
-        "var_order": ["content"],
+        "self_field_types": {"content": "List Nat", "executed": "Bool"},
+        "arg_rust_types": {"data": "List Nat"} if with_data else {},
         "result_type": "Bool × List Nat",
         "return": lambda tr, v: f"(executed, {v})",
     }
@@ -914,9 +1008,7 @@ def extract_scan(read, fail):
         "arg_types": [("left", "List Char"), ("right", "List Char")],
         "self_fields": {},
         # `let mut left_chars = left.chars();` is handled below: iterators are the remaining characters
-        "var_types": {"prefix_length": "Nat", "left_chars": "List Char", "right_chars": "List Char",
-                      "was_escape": "Bool", "group_level": "Int", "i": "Nat"},
-        "var_order": ["left_chars", "right_chars", "prefix_length", "was_escape", "group_level", "i"],
+        "arg_rust_types": {"left": "List Char", "right": "List Char"},
         "result_type": "Nat",
         "return": lambda tr, v: v,
     }
